@@ -1420,6 +1420,14 @@ func (v *Verifier) rangeNext(st *State, x *ssa.Next) {
 			return tImp(tNot(ok), tImp(tAnd(tNot(tEq(m, tNilP)), mk("Bool", "select", domA, k2)), mk("Bool", "select", vis, k2)))
 		}})
 	}
+	if ks == "String" {
+		// the exhaustion fact at the string literals the contract of this function speaks about (string-sorted
+		// quantifiers are instantiated by the engine, and a literal of the contract is not a term of the program)
+		for _, lit := range v.contractLits {
+			l := strLit(lit)
+			st.assume(tImp(tNot(ok), tImp(tAnd(tNot(tEq(it.m, tNilP)), mk("Bool", "select", domA, l)), mk("Bool", "select", it.visited, l))))
+		}
+	}
 	if v.setTheory && ks == "String" {
 		// the same exhaustion fact as one array equation (every key of the map is in the visited set), for contracts
 		// that speak about the visited set as a whole
